@@ -32,5 +32,6 @@ pub fn default_download_timeout() -> Duration {
 /// Whether the given duration is the default duration that the client should be willing to wait to
 /// start receiving data.
 pub fn is_default_download_timeout(timeout: &Duration) -> bool {
-    timeout.as_secs() == 20
+    // The timeout is sent in milliseconds.
+    timeout.as_millis() == default_download_timeout().as_millis()
 }
